@@ -43,6 +43,14 @@ def cases(tier):
     yield "with-env", f"with {{\n  v = {D};\n}};\n{{\n  version = v;\n}}\n", "version", None
     yield "let-beats-with", f"let\n  v = {D};\nin\nwith {{\n  v = \"WITH\";\n}};\n{{\n  version = v;\n}}\n", "version", None
     yield "inherit-let", f"let\n  v = {D};\nin\n{{\n  inherit v;\n  version = v;\n}}\n", "version", None
+    # the edited set is itself reached through a name, from below a layer (or a `with`) that binds the referenced name again:
+    # the reference inside the set sees the scope where the set is written, not the one where it is used
+    yield "target-by-name-inner-shadow", f"let\n  v = {D};\n  args = {{\n    pname = \"demo\";\n    version = v;\n  }};\nin\nlet\n  v = \"2\";\nin\nmk args\n", "version", None
+    yield "bare-target-chain-inner-shadow", f"let\n  v = {D};\n  ver = v;\n  args = {{\n    version = ver;\n  }};\nin\nlet\n  v = \"2\";\n  other = v;\nin\nargs\n", "version", None
+    yield "target-by-name-with-env", f"let\n  v = {D};\n  args = {{\n    version = v;\n  }};\nin\nwith {{ v = \"2\"; }};\nmk args\n", "version", None
+    yield "target-by-name-twice", f"let\n  v = {D};\n  args = {{\n    version = v;\n  }};\nin\nlet\n  v = \"2\";\nin\nmk args\n", "version;version", None
+    # a let alias whose own value names something the rec set below shadows
+    yield "let-alias-into-rec-shadow", f"let\n  release = version;\n  version = {D};\nin\nrec {{\n  version = \"LOCAL\";\n  tag = release;\n}}\n", "tag", None
     yield "unbound", "{\n  version = v;\n}\n", "version", "{\n  version = \"NEW\";\n}\n"
     yield "unbound-in-let", "let\n  w = 1;\nin\n{\n  version = v;\n}\n", "version", "let\n  w = 1;\nin\n{\n  version = \"NEW\";\n}\n"
     yield "formal-not-editable", "{ v }:\n{\n  version = v;\n}\n", "version", "{ v }:\n{\n  version = \"NEW\";\n}\n"
